@@ -69,3 +69,31 @@ void bad_alias_rw__acc(fb_t c, const fb_t a, const bn_t b) {
 		}
 	}
 }
+
+/* negative scalars multiply by |k| */
+void bad_sm_sign__abs__eb_mul_y(eb_t r, const eb_t p, const bn_t k) {
+	eb_t t;
+	if (bn_is_zero(k) || eb_is_infty(p)) {
+		eb_set_infty(r);
+		return;
+	}
+	eb_null(t);
+	eb_new(t);
+	eb_copy(t, p);
+	for (int i = bn_bits(k) - 2; i >= 0; i--) {
+		eb_dbl(t, t);
+		if (bn_get_bit(k, i)) {
+			eb_add(t, t, p);
+		}
+	}
+	eb_norm(r, t);
+	eb_free(t);
+}
+
+/* the output's own coordinate is used where the input's was meant */
+void bad_out_rbw__own(eb_t r, const eb_t p) {
+	fb_add(r->y, r->x, r->y);
+	fb_copy(r->x, p->x);
+	fb_copy(r->z, p->z);
+	r->coord = p->coord;
+}
